@@ -31,7 +31,14 @@ type C11Scn struct {
 	// as) an instance of its own and reads that. Whatever the library shares
 	// between instances - package-level scratch, pools, a worker goroutine -
 	// is then in use by a writer-like activity next to the readers.
-	Bystander string `json:"bystander,omitempty"` // "" | load | build
+	Bystander string `json:"bystander,omitempty"` // "" | load | build | load-other | load-other-sibling
+	// ColdStart: the concurrent phase runs BEFORE any reference execution. The
+	// references normally come first (step caps, site profiles), and with them
+	// everything the library initialises lazily at package level - a table built
+	// on first use, a sync.Once, a slice grown to the largest trie seen - is
+	// already in place when the readers start. With ColdStart the readers are
+	// the first callers; outcomes are recorded and judged afterwards.
+	ColdStart bool `json:"cold_start,omitempty"`
 }
 
 func intWidth(enc string, hasVals bool) int {
@@ -55,6 +62,9 @@ type c11Limits struct {
 	maxKeys, maxTasks, maxUnits int
 	bigFixtures                 bool
 }
+
+// c11ForceCold is set by generate() for the first runs of every worker process.
+var c11ForceCold bool
 
 // c11Huge is set by generate() for the few runs of a tier that get a subject
 // with more than 2^16 keys.
@@ -306,9 +316,57 @@ func genC11(r *Rng, tier string) *C11Scn {
 		}
 		if r.Chance(0.4) {
 			c.Bystander = "load-other" // another content: nothing to compare it with, it only is there
+			if c.Spec != nil && siblingEnc(c.Spec.Enc) != "" && r.Bool() {
+				// ... decoded with the sibling of the subject's encoder (same Go
+				// type, other byte order): encoders are values the library may share
+				c.Bystander = "load-other-sibling"
+			}
+		}
+	}
+	c.ColdStart = r.Chance(0.12) || c11ForceCold
+	if c.ColdStart {
+		// lazily initialised state is raced for by callers of the SAME entry
+		// point: every task starts with one unit of one kind (other queries)
+		kinds := []string{"get", "rangeget", "search", "stat", "marshal", "protosize", "getversion"}
+		if mix.Complete {
+			kinds = append(kinds, "scanfrom", "scanfromto", "iter", "scanfrom", "iter")
+		}
+		if mix.Small {
+			kinds = append(kinds, "string", "string", "string")
+		}
+		if mix.IntWidth > 0 {
+			kinds = append(kinds, map[int]string{1: "geti8", 2: "geti16", 4: "geti32", 8: "geti64"}[mix.IntWidth])
+		}
+		if mix.Index {
+			kinds = append(kinds, "idxget", "idxrangeget")
+		}
+		k := kinds[r.Intn(len(kinds))]
+		for ti := range c.Tasks {
+			u := Unit{Kind: k}
+			switch k {
+			case "stat", "string", "marshal", "protosize", "getversion":
+			case "scanfrom", "iter":
+				u.Q, u.Incl, u.WithVal, u.Limit = qs[r.Intn(len(qs))], r.Bool(), r.Bool(), r.Range(1, 8)
+			case "scanfromto":
+				u.Q, u.Q2, u.Incl, u.Incl2, u.Limit = qs[r.Intn(len(qs))], qs[r.Intn(len(qs))], true, r.Bool(), r.Range(1, 8)
+			default:
+				u.Q = qs[r.Intn(len(qs))]
+			}
+			c.Tasks[ti].Units = append([]Unit{u}, c.Tasks[ti].Units...)
 		}
 	}
 	return c
+}
+
+// siblingEnc: an encoder kind over the same Go value type with the other byte order.
+func siblingEnc(enc string) string {
+	switch enc {
+	case "structle":
+		return "structbe"
+	case "structbe":
+		return "structle"
+	}
+	return ""
 }
 
 // stream returns the bytes a loaded/legacy subject is loaded from (nil for built).
@@ -676,63 +734,103 @@ func executeC11Once(scn *Scenario) *RunResult {
 	// has grown locks/atomics/pools and most runs are turned into sweeps that
 	// park a task in the gaps between its critical sections (atomicity
 	// violations are invisible to the race detector and need exactly that)
-	recordSoloSites = scn.Strat.Kind != "replay" && !scn.Strat.Resolved
-	refs, total := soloRefs(twinA, c.Tasks)
-	recordSoloSites = false
+	cold := c.ColdStart
 	generated := scn.Strat.Kind != "replay" && !scn.Strat.Resolved
-	profiles := coldProfiles(c.Tasks, refs)
-	if generated && profilesHaveSync(profiles) {
-		// The cold, de-duplicated solo profiles do not contain paths that are
-		// only taken when a cache of the code under test is WARM (the hit path
-		// of a second lookup of the same key). One more instance serves all
-		// tasks sequentially, unit by unit, with site recording: per task the
-		// larger of the two counts is kept; a site seen by any task is a
-		// candidate for every task.
-		if warm, err := c.instances(1); err == nil {
-			wp := warmProfiles(warm[0], c.Tasks)
-			union := map[int]bool{}
-			for ti := range profiles {
-				for site, n := range wp[ti] {
-					if n > profiles[ti][site] {
-						profiles[ti][site] = n
+	var refs map[string]unitRef
+	var total int64
+	var refBytes []byte
+	var refErr error
+	computeRefs := func() bool {
+		recordSoloSites = generated && !cold
+		refs, total = soloRefs(twinA, c.Tasks)
+		recordSoloSites = false
+		profiles := coldProfiles(c.Tasks, refs)
+		if cold {
+			profiles = nil
+		}
+		if generated && profilesHaveSync(profiles) {
+			// The cold, de-duplicated solo profiles do not contain paths that are
+			// only taken when a cache of the code under test is WARM (the hit path
+			// of a second lookup of the same key). One more instance serves all
+			// tasks sequentially, unit by unit, with site recording: per task the
+			// larger of the two counts is kept; a site seen by any task is a
+			// candidate for every task.
+			if warm, err := c.instances(1); err == nil {
+				wp := warmProfiles(warm[0], c.Tasks)
+				union := map[int]bool{}
+				for ti := range profiles {
+					for site, n := range wp[ti] {
+						if n > profiles[ti][site] {
+							profiles[ti][site] = n
+						}
+					}
+					for site := range profiles[ti] {
+						if site > 0 && site < len(siteSync) && siteSync[site] {
+							union[site] = true
+						}
 					}
 				}
-				for site := range profiles[ti] {
-					if site > 0 && site < len(siteSync) && siteSync[site] {
-						union[site] = true
+				for ti := range profiles {
+					if len(c.Tasks[ti].Units) == 0 {
+						continue
 					}
-				}
-			}
-			for ti := range profiles {
-				if len(c.Tasks[ti].Units) == 0 {
-					continue
-				}
-				for site := range union {
-					if profiles[ti][site] == 0 {
-						profiles[ti][site] = 1
+					for site := range union {
+						if profiles[ti][site] == 0 {
+							profiles[ti][site] = 1
+						}
 					}
 				}
 			}
 		}
-	}
-	adaptToSync(&scn.Strat, profiles)
-	resolveSweep(&scn.Strat, c.Tasks, profiles)
-	if generated {
-		if c.Trio {
-			res.SweepCands = sweepCandidates(scn.Strat.Seed, c.Tasks, profiles, 400, true)
-		} else {
-			res.SweepCands = sweepCandidates(scn.Strat.Seed, c.Tasks, profiles, 36, false)
+		if !cold {
+			adaptToSync(&scn.Strat, profiles)
+			resolveSweep(&scn.Strat, c.Tasks, profiles)
+			if generated {
+				if c.Trio {
+					res.SweepCands = sweepCandidates(scn.Strat.Seed, c.Tasks, profiles, 400, true)
+				} else {
+					res.SweepCands = sweepCandidates(scn.Strat.Seed, c.Tasks, profiles, 36, false)
+				}
+			}
 		}
+		refsB, _ := soloRefs(twinB, c.Tasks)
+		for k, r := range refs {
+			if refsB[k].out != r.out {
+				res.Premise = fmt.Sprintf("twins disagree on %s: %q vs %q", k, clip(r.out, 80), clip(refsB[k].out, 80))
+				return false
+			}
+		}
+		refBytes, refErr = safeMarshal(twinA)
+		featuresOf(refBytes).probes(res.Counters)
+		return true
 	}
-	refsB, _ := soloRefs(twinB, c.Tasks)
-	for k, r := range refs {
-		if refsB[k].out != r.out {
-			res.Premise = fmt.Sprintf("twins disagree on %s: %q vs %q", k, clip(r.out, 80), clip(refsB[k].out, 80))
+	if !cold {
+		if !computeRefs() {
 			return res
 		}
+	} else {
+		refs = map[string]unitRef{}
+		total = 400_000
+		if scn.Strat.Kind == "sweep" && !scn.Strat.Resolved {
+			// no site profile yet: a sweep has no target
+			scn.Strat.Kind, scn.Strat.P = "random", []float64{0.05, 0.2, 0.5}[scn.Strat.Seed%3]
+		}
+		res.Counters["cold_start_runs"]++
 	}
-	refBytes, refErr := safeMarshal(twinA)
-	featuresOf(refBytes).probes(res.Counters)
+	// capFor: the step cap of a unit under interleaving. Before the references
+	// exist (cold start) it is a generous constant and hitting it says nothing.
+	capFor := func(u *Unit) int64 {
+		if cold {
+			return 30_000_000
+		}
+		return unitCap(refs[u.key()].steps)
+	}
+	type pendingOut struct {
+		ti, ui int
+		u      *Unit
+		out    string
+	}
+	var pending []pendingOut
 
 	sim := newSim(scn.Strat, scn.Segs, total)
 	var viol *Violation
@@ -745,11 +843,22 @@ func executeC11Once(scn *Scenario) *RunResult {
 	}
 	var capUnit *Unit
 	var capUsed int64
-	check := func(ti, ui int, u *Unit, out string) {
+	judging := !cold
+	var check func(ti, ui int, u *Unit, out string)
+	check = func(ti, ui int, u *Unit, out string) {
+		if !judging {
+			// cold start: recorded now, judged when the references exist
+			// (appended by the task that holds the baton: one at a time)
+			pending = append(pending, pendingOut{ti, ui, u, out})
+			return
+		}
 		if sim.stop && viol != nil {
 			return
 		}
 		ref := refs[u.key()]
+		if cold && (soloCapped(ref.out) || hasSuffix(out, "ABORT:stepcap")) {
+			return // no yardstick was available when the unit ran
+		}
 		if out == ref.out {
 			return
 		}
@@ -782,7 +891,7 @@ func executeC11Once(scn *Scenario) *RunResult {
 				keep := live[:0]
 				for _, li := range live {
 					u := &units[li.ui]
-					sim.enterUnit(t, "iter", unitCap(refs[u.key()].steps))
+					sim.enterUnit(t, "iter", capFor(u))
 					li.it.step()
 					sim.exitUnit(t)
 					if li.it.left <= 0 {
@@ -804,7 +913,7 @@ func executeC11Once(scn *Scenario) *RunResult {
 					sim.probe("unit_excluded_solo_cap")
 					continue
 				}
-				cap := unitCap(refs[u.key()].steps)
+				cap := capFor(u)
 				if u.Kind == "iter" && u.Spread {
 					sim.enterUnit(t, "iter", cap)
 					it := u.open(subject)
@@ -838,11 +947,14 @@ func executeC11Once(scn *Scenario) *RunResult {
 				bstream, benc = b, e
 			}
 		}
-		other := c.Bystander == "load-other"
+		other := c.Bystander == "load-other" || c.Bystander == "load-other-sibling"
 		if other {
 			benc = fixtureEnc
 			if c.Spec != nil {
 				benc = c.Spec.Enc
+				if c.Bystander == "load-other-sibling" && siblingEnc(benc) != "" {
+					benc = siblingEnc(benc)
+				}
 			}
 			bstream = priorStreamFor(benc)
 		}
@@ -897,7 +1009,7 @@ func executeC11Once(scn *Scenario) *RunResult {
 				if soloCapped(refs[u.key()].out) || (u.Kind == "iter" && u.Spread) || u.Kind == "idxget" || u.Kind == "idxrangeget" {
 					continue
 				}
-				sim.enterUnit(t, u.Kind, unitCap(refs[u.key()].steps))
+				sim.enterUnit(t, u.Kind, capFor(u))
 				out := u.run(own, sim.yield0)
 				sim.exitUnit(t)
 				check(bid, ui, u, out)
@@ -924,6 +1036,23 @@ func executeC11Once(scn *Scenario) *RunResult {
 	}
 	if sim.stop && sim.stopWhy == "budget" {
 		res.Counters["budget_stopped_runs"]++
+	}
+	if cold {
+		// now the references (twins, alone), then the recorded outcomes
+		if !computeRefs() {
+			return res
+		}
+		judging = true
+		wasStopped := sim.stop
+		for _, p := range pending {
+			if viol != nil {
+				break
+			}
+			check(p.ti, p.ui, p.u, p.out)
+		}
+		if viol == nil {
+			sim.stop = wasStopped
+		}
 	}
 	if viol != nil && viol.Oracle == "step-cap" && capUnit != nil {
 		// confirm against the COLD cost: the reference step count was taken on a
